@@ -25,6 +25,7 @@ type HarnessSpec struct {
 	Unwind   int
 	Explore  bool // goroutine tier
 	Sched    int  // schedule budget
+	SchedThorough int // schedule budget in the thorough tier (0: same)
 	MaxSteps int
 	AllowPanic bool
 	AlwaysFeas bool
@@ -104,6 +105,9 @@ func newHarnessRun(spec *HarnessSpec, tier string) *HarnessRun {
 		h.maxSteps = 3_000_000
 	}
 	h.schedBudget = spec.Sched
+	if tier == "thorough" && spec.SchedThorough > 0 {
+		h.schedBudget = spec.SchedThorough
+	}
 	if h.schedBudget == 0 {
 		h.schedBudget = 300
 		if tier == "thorough" {
